@@ -1386,5 +1386,5 @@ func ssrecover(in json.RawMessage, res *vh.Result) error {
 }
 
 func main() {
-	vh.Main(map[string]vh.Mode{"replay": replay, "probes": probes, "sfprobes": sfprobes, "ssrecover": ssrecover, "refresh": refresh})
+	vh.Main(map[string]vh.Mode{"replay": replay, "probes": probes, "sfprobes": sfprobes, "ssrecover": ssrecover, "refresh": refresh, "peersprobe": peersprobe})
 }
